@@ -339,6 +339,45 @@ def k5(run, tu, F_):
     return 1
 
 
+def k8(run, tu, F_):
+    """the source kinds are available to every integer target: the branch for a built-in function object of an API-mode lib (its address)
+    is not placed under a test of the *target* type (a function cast to _Bool is true, like any non-null pointer)"""
+    F = 'cast_to_integer_or_char'
+    g = cfg_of(tu, F)
+    ext = [n for n in g.nodes if n.ast is not None and cx.calls_in(n.ast, 'try_extract_directfnptr')]
+    run.need(len(ext) == 1, '%s: the built-in function branch not found' % F)
+    facts = sorted(f for f in g.fact_texts(ext[0].id) if 'ct->ct_flags' in f and 'ob' not in f.split(':', 1)[1].replace('ob_', ''))
+    run.ob('K1/function-objects-cast-to-every-integer-target', F, 'try_extract_directfnptr(ob)', not facts, tu.where(ext[0].ast),
+           'reached only when %s: for the excluded target type the function object goes to the number conversion and raises TypeError' % facts)
+
+
+def k7(run, tu):
+    """a cast to _Bool is `x != 0`: every answer _my_PyObject_AsBool gives by itself is a comparison `... != 0` (negative numbers and
+    NaN are true), the others are the error value or the answer of the recursion on the converted number"""
+    F = '_my_PyObject_AsBool'
+    g = cfg_of(tu, F)
+    n = 0
+    for r in g.nodes:
+        if r.kind != 'return' or r.id not in g.live():
+            continue
+        ks = cx.kids(r.ast)
+        run.need(bool(ks), '%s: a return without a value' % F)
+        e = cx.strip(ks[0], casts=True)
+        txt = cx.render(e)
+        if txt in ('-1', 'res'):
+            continue
+        n += 1
+        ok = False
+        if e.get('kind') == 'BinaryOperator' and e.get('opcode') == '!=':
+            a, b = cx.kids(e)
+            zero = lambda t: cx.render(cx.strip(t, casts=True)).rstrip('.0') in ('', '0') or cx.render(cx.strip(t, casts=True)) in ('0', '0.', '0.0')
+            ok = zero(a) or zero(b)
+        run.ob('K7/bool-cast-is-nonzero-test', F, 'return %s' % txt[:70], ok, tu.where(r.ast), 'a _Bool cast must answer `value != 0`; this answer makes some non-zero value (a negative number) false')
+    run.need(n >= 3, '%s: fewer direct answers than confirmed by hand (%d)' % (F, n))
+    res = [cx.render(r_) for l_, r_, o_, _x in cx.assignments(tu.func(F)) if cx.lhs_text(l_) == 'res']
+    run.ob('K7/recursion-answers-for-the-converted-number', F, 'res = %s' % res, set(res) <= {'_my_PyObject_AsBool(io)', '-1'} and '_my_PyObject_AsBool(io)' in res, tu.where(tu.func(F)))
+
+
 def check(run):
     run.technique = ('clang-AST/CFG rules: source-kind dispatch and dominance facts in cast_to_integer_or_char, must-pass-through of the '
                      'single narrowing store, per-size shape of write_raw_integer_data, reachability of _my_PyLong_AsUnsignedLongLong '
@@ -349,8 +388,10 @@ def check(run):
     k3(run, tu)
     k4(run, tu)
     k5(run, tu, F_)
+    k7(run, tu)
+    k8(run, tu, F_)
     run.assume('decided: which conversion every source kind goes through, that the value is stored by an unsigned narrowing conversion of '
                'the target size, and the non-strict behaviour of the number helper; not decided: CPython\'s PyLong_AsUnsignedLongLongMask / '
                'float.__int__ themselves, nor the character helpers (_my_PyUnicode_AsSingleChar32, _convert_to_char)')
-    for rule, k in (('K1/source-kind-dispatch', 6), ('K1/every-listed-source-kind-has-a-branch', 5), ('K2', 8), ('K3', 10), ('K4', 5), ('K5', 4), ('K6', 4)):
+    for rule, k in (('K1/source-kind-dispatch', 6), ('K1/every-listed-source-kind-has-a-branch', 5), ('K2', 8), ('K3', 10), ('K4', 5), ('K5', 4), ('K6', 4), ('K7', 4)):
         run.min_instances(rule, k)
